@@ -32,6 +32,7 @@ type Opt struct {
 	Vary         int // percentage: a written type uses the unfolding of a name instead of the name
 	Capture      int // percentage: the context is captured by a server that the client splits and uses twice
 	CutFwd       int // percentage of tail calls spelt  x <- new f(...); fwd self x
+	Ctor         int // percentage of producers built by a constructor function (0 = 25)
 }
 
 func DefaultOpt(r *rand.Rand) Opt {
@@ -293,7 +294,11 @@ func (g *G) producer(A *Ty, fuel int) (func(*Term) *Term, string) {
 			return &Term{Op: "new", Y: a, Ann: g.vary(A), Body: &Term{Op: "close", X: "self"}, Cont: c}
 		}, a
 	}
-	if fuel > 0 && g.coin(25) {
+	ctor := g.O.Ctor
+	if ctor == 0 {
+		ctor = 25
+	}
+	if fuel > 0 && g.coin(ctor) {
 		if w, n, ok := g.constructor(A, U, fuel, a); ok {
 			return w, n
 		}
